@@ -429,3 +429,145 @@ func checkSortLimitCut(c *core.Ctx, r *core.Report) {
 	}
 	r.Floor("BOUND", "stores of the sort command's result so far", n, 2)
 }
+
+// checkMergeLimitCut — C05 clause (11).  When a limited command (sort N, head N) runs as several parallel chains, the
+// merging DataProcessor enforces N across the chains: mergeSettings.numReturned counts the rows handed on, and each
+// batch is cut to what is left of the limit before it is counted.  Wherever the rows of an IQR are added to
+// numReturned, that IQR has, on every path from the function's entry, either passed IQR.DiscardAfter (directly or in a
+// helper of the package that applies it to the IQR it is given) or come along the edge on which no limit is set.  A
+// fast path that hands a batch on and counts it without the cut returns more than N rows whenever the other chains ran
+// dry early.
+func checkMergeLimitCut(c *core.Ctx, r *core.Report) {
+	numF := c.Field(pkgProcessor, "mergeSettings.numReturned")
+	discard := c.Obj("pkg/segment/query/iqr", "IQR.DiscardAfter")
+	numRecs := c.Obj("pkg/segment/query/iqr", "IQR.NumberOfRecords")
+	pkgPath := core.ModPath + "/" + pkgProcessor
+	// helpers that cut the IQR they are given: parameter index -> true
+	cutters := map[*ssa.Function]map[int]bool{}
+	for _, fn := range c.RepoFunctions() {
+		if core.FnPkgPath(fn) != pkgPath || fn.Blocks == nil {
+			continue
+		}
+		for _, call := range callsTo(fn, discard) {
+			if par, ok := call.Call.Args[0].(*ssa.Parameter); ok {
+				for i, q := range fn.Params {
+					if q == par {
+						if cutters[fn] == nil {
+							cutters[fn] = map[int]bool{}
+						}
+						cutters[fn][i] = true
+					}
+				}
+			}
+		}
+	}
+	n := 0
+	for _, fn := range c.RepoFunctions() {
+		if core.FnPkgPath(fn) != pkgPath || fn.Blocks == nil {
+			continue
+		}
+		k := 0
+		for _, b := range fn.Blocks {
+			for _, in := range b.Instrs {
+				st, ok := in.(*ssa.Store)
+				if !ok {
+					continue
+				}
+				fa, ok := st.Addr.(*ssa.FieldAddr)
+				if !ok || core.FieldOfAddr(fa) != numF {
+					continue
+				}
+				if _, isK := st.Val.(*ssa.Const); isK {
+					continue // reset
+				}
+				// the IQR whose rows are counted
+				var counted ssa.Value
+				var find func(v ssa.Value, d int)
+				find = func(v ssa.Value, d int) {
+					if d > 4 || counted != nil {
+						return
+					}
+					switch x := v.(type) {
+					case *ssa.BinOp:
+						find(x.X, d+1)
+						find(x.Y, d+1)
+					case *ssa.Convert:
+						find(x.X, d+1)
+					case *ssa.Call:
+						if core.IsCallTo(x, numRecs) && len(x.Call.Args) > 0 {
+							counted = x.Call.Args[0]
+						}
+					}
+				}
+				find(st.Val, 0)
+				if counted == nil {
+					continue
+				}
+				n++
+				k++
+				construct := fmt.Sprintf("%s:rows-counted-against-the-merge-limit#%d-were-cut-to-it", shortFn(fn), k)
+				isCut := func(x ssa.Instruction) bool {
+					call, ok := x.(*ssa.Call)
+					if !ok {
+						return false
+					}
+					if core.IsCallTo(call, discard) && len(call.Call.Args) > 0 && call.Call.Args[0] == counted {
+						return true
+					}
+					if h := call.Call.StaticCallee(); h != nil && cutters[h] != nil {
+						for i, a := range call.Call.Args {
+							if a == counted && cutters[h][i] {
+								return true
+							}
+						}
+					}
+					return false
+				}
+				reached := false
+				core.WalkForwardEdges(fn, nil, func(x ssa.Instruction) bool {
+					if isCut(x) {
+						return false
+					}
+					if x == ssa.Instruction(st) {
+						reached = true
+						return false
+					}
+					return true
+				}, func(from, to *ssa.BasicBlock) bool {
+					// the edge on which no limit is set: the `ok` of Option.Get() is false
+					ifi, ok := core.LastIf(from)
+					if !ok {
+						return true
+					}
+					cond, neg := ifi.Cond, false
+					if u, ok := cond.(*ssa.UnOp); ok && u.Op == token.NOT {
+						cond, neg = u.X, true
+					}
+					ex, ok := cond.(*ssa.Extract)
+					if !ok || ex.Index != 1 {
+						return true
+					}
+					get, ok := ex.Tuple.(*ssa.Call)
+					if !ok {
+						return true
+					}
+					if f := core.CalleeFunc(get); f == nil || f.Name() != "Get" {
+						return true
+					}
+					noLimit := from.Succs[1]
+					if neg {
+						noLimit = from.Succs[0]
+					}
+					return to != noLimit
+				})
+				if reached {
+					// the no-limit edge was pruned above; walk it separately: it is fine by definition
+					r.Violation("GUARD", construct, c.Pos(st.Pos()), "the rows of a batch are counted against the merge limit (and the batch handed on) on a path where the batch was not cut to what is left of the limit: when the other parallel chains ran dry early, `sort N` / `head N` returns more than N rows")
+				} else {
+					r.OK("GUARD", construct, c.Pos(st.Pos()), "on every path with a limit the counted IQR passed DiscardAfter first")
+				}
+			}
+		}
+	}
+	r.Floor("GUARD", "places where rows are counted against the merge limit", n, 1)
+}
